@@ -27,70 +27,98 @@ def flushHi (hi : Option Nat) (acc : S) : S :=
   | some _ => 0xFFFD :: acc
   | none => acc
 
-/-- body of a string after the opening quote; `acc` reversed; `hi` = pending high surrogate -/
+/-- body of a string after the opening quote; `acc` reversed; `hi` = pending high surrogate.
+Dispatch on the first character: `"` ends the string, `\` starts an escape, a raw control character is an error. -/
 def readStr : S → S → Option Nat → Option (S × S)
   | [], _, _ => none
-  | 34 :: r, acc, hi => some ((flushHi hi acc).reverse, r)
-  | 92 :: 117 :: a :: b :: c :: d :: r, acc, hi =>
-    match hexVal a, hexVal b, hexVal c, hexVal d with
-    | some a, some b, some c, some d =>
-      let u := ((a * 16 + b) * 16 + c) * 16 + d
-      if 0xDC00 ≤ u && u ≤ 0xDFFF then
-        match hi with
-        | some h => readStr r ((0x10000 + (h - 0xD800) * 0x400 + (u - 0xDC00)) :: acc) none
-        | none => readStr r (0xFFFD :: acc) none
-      else if 0xD800 ≤ u && u ≤ 0xDBFF then readStr r (flushHi hi acc) (some u)
-      else readStr r (u :: flushHi hi acc) none
-    | _, _, _, _ => none
-  | 92 :: e :: r, acc, hi =>
-    let acc := flushHi hi acc
-    if e == 34 then readStr r (34 :: acc) none
-    else if e == 92 then readStr r (92 :: acc) none
-    else if e == 47 then readStr r (47 :: acc) none
-    else if e == 98 then readStr r (8 :: acc) none
-    else if e == 102 then readStr r (12 :: acc) none
-    else if e == 110 then readStr r (10 :: acc) none
-    else if e == 114 then readStr r (13 :: acc) none
-    else if e == 116 then readStr r (9 :: acc) none
-    else none
-  | [92], _, _ => none
-  | c :: r, acc, hi => if c < 32 then none else readStr r (c :: flushHi hi acc) none
+  | c :: r, acc, hi =>
+    if c == 34 then some ((flushHi hi acc).reverse, r)
+    else if c == 92 then
+      match r with
+      | [] => none
+      | e :: r1 =>
+        if e == 117 then
+          match r1 with
+          | a :: b :: c4 :: d :: r2 =>
+            match hexVal a, hexVal b, hexVal c4, hexVal d with
+            | some a, some b, some c4, some d =>
+              let u := ((a * 16 + b) * 16 + c4) * 16 + d
+              if 0xDC00 ≤ u && u ≤ 0xDFFF then
+                match hi with
+                | some h => readStr r2 ((0x10000 + (h - 0xD800) * 0x400 + (u - 0xDC00)) :: acc) none
+                | none => readStr r2 (0xFFFD :: acc) none
+              else if 0xD800 ≤ u && u ≤ 0xDBFF then readStr r2 (flushHi hi acc) (some u)
+              else readStr r2 (u :: flushHi hi acc) none
+            | _, _, _, _ => none
+          | _ => none
+        else
+          let acc := flushHi hi acc
+          if e == 34 then readStr r1 (34 :: acc) none
+          else if e == 92 then readStr r1 (92 :: acc) none
+          else if e == 47 then readStr r1 (47 :: acc) none
+          else if e == 98 then readStr r1 (8 :: acc) none
+          else if e == 102 then readStr r1 (12 :: acc) none
+          else if e == 110 then readStr r1 (10 :: acc) none
+          else if e == 114 then readStr r1 (13 :: acc) none
+          else if e == 116 then readStr r1 (9 :: acc) none
+          else none
+    else if c < 32 then none
+    else readStr r (c :: flushHi hi acc) none
+
+def isDigit (c : Nat) : Bool := 48 ≤ c && c ≤ 57
 
 def readDigits : S → Nat → Nat → Nat × Nat × S
   | [], n, k => (n, k, [])
-  | c :: r, n, k => if 48 ≤ c && c ≤ 57 then readDigits r (n * 10 + (c - 48)) (k + 1) else (n, k, c :: r)
+  | c :: r, n, k => if isDigit c then readDigits r (n * 10 + (c - 48)) (k + 1) else (n, k, c :: r)
 
-/-- integer; a following `.`, `e`, `E` (a non-integer number) is rejected -/
-def readNum (inp : S) : Option (JVal × S) :=
-  let (neg, r) := match inp with
-    | 45 :: r => (true, r)
-    | r => (false, r)
-  let (n, k, rest) := readDigits r 0 0
-  if k == 0 then none
-  else match rest with
-    | 46 :: _ => none
-    | 101 :: _ => none
-    | 69 :: _ => none
-    | _ => some (.num (if neg then -(n : Int) else n), rest)
+/-- the text after the digits starts a fraction or an exponent -/
+def fracOrExp : S → Bool
+  | [] => false
+  | c :: _ => c == 46 || c == 101 || c == 69
+
+/-- the digits of an integer (sign already read); a following `.`, `e`, `E` (a non-integer number) is rejected -/
+def readNat (inp : S) (neg : Bool) : Option (JVal × S) :=
+  match readDigits inp 0 0 with
+  | (n, k, rest) =>
+    if k == 0 then none
+    else if fracOrExp rest then none
+    else some (.num (if neg then -(n : Int) else n), rest)
+
+def readNum : S → Option (JVal × S)
+  | [] => none
+  | c :: r => if c == 45 then readNat r true else readNat (c :: r) false
 
 mutual
+/-- one value; dispatch on the first non-blank character -/
 def value : Nat → S → Option (JVal × S)
   | 0, _ => none
   | f + 1, inp =>
     match skipWs inp with
-    | 110 :: 117 :: 108 :: 108 :: r => some (.null, r)
-    | 116 :: 114 :: 117 :: 101 :: r => some (.bool true, r)
-    | 102 :: 97 :: 108 :: 115 :: 101 :: r => some (.bool false, r)
-    | 34 :: r => (readStr r [] none).map fun p => (.str p.1, p.2)
-    | 91 :: r =>
-      match skipWs r with
-      | 93 :: r' => some (.arr [], r')
-      | r' => elems f r' []
-    | 123 :: r =>
-      match skipWs r with
-      | 125 :: r' => some (.obj [], r')
-      | r' => members f r' []
-    | r => readNum r
+    | [] => none
+    | c :: r =>
+      if c == 34 then (readStr r [] none).map fun p => (.str p.1, p.2)
+      else if c == 91 then
+        match skipWs r with
+        | [] => none
+        | c' :: r' => if c' == 93 then some (.arr [], r') else elems f (c' :: r') []
+      else if c == 123 then
+        match skipWs r with
+        | [] => none
+        | c' :: r' => if c' == 125 then some (.obj [], r') else members f (c' :: r') []
+      else if c == 110 then
+        match r with
+        | 117 :: 108 :: 108 :: r' => some (.null, r')
+        | _ => none
+      else if c == 116 then
+        match r with
+        | 114 :: 117 :: 101 :: r' => some (.bool true, r')
+        | _ => none
+      else if c == 102 then
+        match r with
+        | 97 :: 108 :: 115 :: 101 :: r' => some (.bool false, r')
+        | _ => none
+      else readNum (c :: r)
+/-- the elements of an array after `[` (at least one), up to and including `]` -/
 def elems : Nat → S → List JVal → Option (JVal × S)
   | 0, _, _ => none
   | f + 1, inp, acc =>
@@ -98,28 +126,37 @@ def elems : Nat → S → List JVal → Option (JVal × S)
     | none => none
     | some (v, r) =>
       match skipWs r with
-      | 44 :: r' => elems f r' (v :: acc)
-      | 93 :: r' => some (.arr (v :: acc).reverse, r')
-      | _ => none
+      | [] => none
+      | c :: r' =>
+        if c == 44 then elems f r' (v :: acc)
+        else if c == 93 then some (.arr (v :: acc).reverse, r')
+        else none
+/-- the members of an object after `{` (at least one), up to and including `}` -/
 def members : Nat → S → List (S × JVal) → Option (JVal × S)
   | 0, _, _ => none
   | f + 1, inp, acc =>
     match skipWs inp with
-    | 34 :: r =>
-      match readStr r [] none with
-      | none => none
-      | some (k, r) =>
-        match skipWs r with
-        | 58 :: r =>
-          match value f r with
-          | none => none
-          | some (v, r) =>
-            match skipWs r with
-            | 44 :: r' => members f r' ((k, v) :: acc)
-            | 125 :: r' => some (.obj ((k, v) :: acc).reverse, r')
-            | _ => none
-        | _ => none
-    | _ => none
+    | [] => none
+    | q :: r =>
+      if q == 34 then
+        match readStr r [] none with
+        | none => none
+        | some (k, r) =>
+          match skipWs r with
+          | [] => none
+          | c :: r =>
+            if c == 58 then
+              match value f r with
+              | none => none
+              | some (v, r) =>
+                match skipWs r with
+                | [] => none
+                | c :: r' =>
+                  if c == 44 then members f r' ((k, v) :: acc)
+                  else if c == 125 then some (.obj ((k, v) :: acc).reverse, r')
+                  else none
+            else none
+      else none
 end
 
 /-- a whole document; `none` on any syntax error or trailing text -/
